@@ -16,13 +16,13 @@ using namespace sim;
 enum { ST_RUNS_FAULTFREE, ST_RUNS_FAULTS, ST_API_CALLS, ST_YIELDS, ST_SWITCHES,
        F_PREEMPT_IN_OP, F_STALL, F_OVERSIZE, F_RAW_OVERSIZE, F_RINGFULL_DROP, F_CHUNKED_COPY,
        P_SPLIT_WRITE, P_SPLIT_READ, P_EXACT_FILL, P_HASNEXT_FALSE_DURING_WRITE, P_LA_AHEAD, P_RESYNC, P_EMPTIED3, P_WRAPPED, P_ALT_CAPACITY,
-       P_WRITE_OVERLAPS_READ, ST_HB_BYTES, ST_MAX_HISTORY, ST_N };
+       P_WRITE_OVERLAPS_READ, ST_HB_BYTES, ST_MAX_HISTORY, P_BUNDLE, P_BUNDLE_FOLLOWED, ST_N };
 static const char *STAT_NAMES[ST_N] = { "runs.fault_free", "runs.with_faults", "api_calls", "yields", "context_switches",
        "fault.preemption_inside_operation", "fault.stall", "fault.oversize_message", "fault.raw_oversize_message", "fault.ring_full_drop", "fault.chunked_copy",
        "probe.split_write", "probe.split_read", "probe.ring_filled_to_capacity", "probe.hasnext_false_during_write", "probe.lookahead_ahead_of_read", "probe.resync_after_lookahead",
-       "probe.reader_emptied_ring_3_times", "probe.ring_wrapped", "nonstandard_capacity_accepted", "probe.write_overlaps_read_call", "hb.tracked_bytes", "max.history_ops" };
+       "probe.reader_emptied_ring_3_times", "probe.ring_wrapped", "nonstandard_capacity_accepted", "probe.write_overlaps_read_call", "hb.tracked_bytes", "max.history_ops", "probe.bundle_written", "probe.bundle_followed_by_another_write" };
 
-enum { K_MAXMSG, K_NMSG, K_STRATEGY, K_FAULTS, K_CHUNKPCT, K_N };
+enum { K_MAXMSG, K_NMSG, K_STRATEGY, K_FAULTS, K_CHUNKPCT, K_BUNDLES, K_N };
 enum { W_WRITE = 0, W_ARRAY, W_RAW, W_STALL, R_POLL, R_POLL_LA, R_PEAK, R_STALL, R_HASNEXT, R_HASNEXT_LA };
 
 // ------------------------------------------------------------------ simulator state visible to the seam hooks
@@ -84,7 +84,7 @@ size_t ring_length(ring_t *r) {
 }
 
 // ------------------------------------------------------------------ messages
-struct Msg { int id; std::vector<char> bytes; size_t enc_len; };   // bytes: full encoding; enc_len: what the link's encoder produces under MaxMsg (0 = cannot encode)
+struct Msg { int id; std::vector<char> bytes; size_t enc_len; std::vector<char> raw; bool bundle = false; };   // raw: what raw_write is handed (a bundle carries no length: its reader needs a zero word behind it)   // bytes: full encoding; enc_len: what the link's encoder produces under MaxMsg (0 = cannot encode)
 
 static size_t build(char *buf, size_t cap, int shape, int id, int fill, rtosc_arg_t *args_out, const char **addr_out, const char **types_out, char *strbuf) {
     static char addr[8];
@@ -116,6 +116,9 @@ struct Checker {
     Checker(const std::vector<Ev> &w, const std::vector<Ev> &r, const std::vector<Msg> &m, size_t mm, long c) : W(w), R(r), msgs(m), maxmsg(mm), cap(c) {}
     static uint64_t qhash(const St &s) { uint64_t h = 7; for (int x : s.q) h = mix64(h, x + 1); return mix64(h, s.la); }
     int match_msg(const std::vector<char> &b) const {   // which written message do these bytes equal?
+        if (b.size() >= 8 && !memcmp(b.data(), "#bundle", 8)) {   // a bundle's length is not in its bytes: the written bundle these bytes start with (ids make prefixes unique)
+            for (size_t i = 0; i < msgs.size(); i++) if (msgs[i].bundle && msgs[i].bytes.size() <= b.size() && !memcmp(msgs[i].bytes.data(), b.data(), msgs[i].bytes.size())) return (int)i;
+            return -1; }
         size_t len = rtosc_message_length(b.data(), b.size());
         for (size_t i = 0; i < msgs.size(); i++) if (msgs[i].bytes.size() == len && len && !memcmp(msgs[i].bytes.data(), b.data(), len)) return (int)i;
         return -1;
@@ -209,6 +212,7 @@ struct LinkWorld : World {
         k.assign(K_N, 0);
         k[K_MAXMSG] = mm[kr.below(11)]; k[K_NMSG] = 1 + kr.below(4); k[K_STRATEGY] = kr.below(S_COUNT);
         k[K_FAULTS] = kr.chance(0.7); k[K_CHUNKPCT] = kr.pick(std::vector<int>{0, 20, 50, 90});
+        k[K_BUNDLES] = kr.chance(0.08);   // raw_write also takes bundles; the trigger of a known finding, constructed in few runs only so that it cannot mask other failures
         int maxmsg = (int)k[K_MAXMSG]; bool faults = k[K_FAULTS];
         int big = g_tier ? 2 : 1; int nw = 1 + (int)pr.below(pr.chance(0.7) ? 8 : 24 * big), nr = 1 + (int)pr.below(pr.chance(0.7) ? 10 : 40 * big);
         std::vector<Op> w, r; int id = 1;
@@ -230,6 +234,7 @@ struct LinkWorld : World {
             else { o.a[1] = 3; int pad = target - 16; o.a[2] = pad ? pad - (int)pr.below(4) : 0; if (o.a[2] < 0) o.a[2] = 0; }                                  // blob: 16 + pad4(L)
             if (pr.chance(0.12)) { o.a[1] = 4 + (int64_t)pr.below(2); o.a[2] = 0; }
             if ((o.a[1] == 0 || o.a[1] == 4) && o.kind == W_ARRAY) o.kind = W_WRITE;
+            if (k[K_BUNDLES] && pr.chance(0.3)) { o.kind = W_RAW; o.a[3] = 1; }   // the message travels as the only element of a bundle
             w.push_back(o);
         }
         for (int i = 0; i < nr; i++) {
@@ -265,7 +270,7 @@ struct LinkWorld : World {
 
         std::vector<Ev> HW, HR; uint64_t seq = 0; bool writer_done = false;
         std::vector<char> last_read; bool peak_bad = false; std::string peak_detail;
-        uint64_t n_over = 0, n_rawover = 0, emptied = 0;
+        uint64_t n_over = 0, n_rawover = 0, emptied = 0, n_bundles = 0; bool bundle_followed = false;
 
         struct WItem { Op op; int msg; const char *addr, *types; rtosc_arg_t args[3]; std::vector<char> str; };
         std::vector<WItem> items(wops.size());
@@ -275,10 +280,12 @@ struct LinkWorld : World {
             int shape_k = (int)(((it.op.a[1] % 6) + 6) % 6), fill = (int)std::max<int64_t>(0, std::min<int64_t>(it.op.a[2], 200));
             if (shape_k < 2 || shape_k > 3) fill = 0;
             it.str.assign(fill + 1, 0);
-            char buf[512];
-            size_t len = build(buf, sizeof buf, shape_k, (int)it.op.a[0], fill, it.args, &it.addr, &it.types, it.str.data());
+            char buf[600];
+            size_t len = build(buf, 512, shape_k, (int)it.op.a[0], fill, it.args, &it.addr, &it.types, it.str.data());
             if (shape_k == 0 || shape_k == 4) { it.str.assign(it.addr, it.addr + strlen(it.addr) + 1); it.addr = nullptr; }   // addr buffer is static: keep a copy
-            Msg m; m.id = (int)it.op.a[0]; m.bytes.assign(buf, buf + len);
+            bool as_bundle = it.op.kind == W_RAW && (it.op.a[3] & 1) && k.size() > K_BUNDLES && k[K_BUNDLES];
+            if (as_bundle) { char bb[560]; size_t bl = rtosc_bundle(bb, sizeof bb, 0x0102030405060708ull + (uint64_t)it.op.a[0], 1, buf); memcpy(buf, bb, bl); len = bl; n_bundles++; if (i + 1 < wops.size()) for (size_t q = i + 1; q < wops.size(); q++) if (wops[q].kind <= W_RAW) bundle_followed = true; }
+            Msg m; m.id = (int)it.op.a[0]; m.bytes.assign(buf, buf + len); m.bundle = as_bundle; m.raw = m.bytes; m.raw.resize(len + 4, 0);
             m.enc_len = len <= maxmsg ? len : 0;      // write/writeArray: encoder refuses; raw_write: the property demands a whole drop
             if (len > maxmsg) { if (it.op.kind == W_RAW) n_rawover++; else n_over++; }
             it.msg = (int)msgs.size(); msgs.push_back(m);
@@ -304,7 +311,7 @@ struct LinkWorld : World {
                     else if (!strcmp(it.types, "ihd")) link->write(addr, "ihd", it.args[0].i, it.args[1].h, it.args[2].d);
                     else link->write(addr, it.types);
                 } else if (it.op.kind == W_ARRAY) link->writeArray(addr, it.types, it.args);
-                else link->raw_write(msgs[it.msg].bytes.data());
+                else link->raw_write(msgs[it.msg].raw.data());
                 g_in_api[0] = false;
                 record(HW, 0, it.op.kind, inv, false, nullptr, it.msg);
             }
@@ -351,6 +358,8 @@ struct LinkWorld : World {
                 else { res.cls = c.deepest_cls.empty() ? "FIFO" : c.deepest_cls; res.detail = "no linearization: " + c.deepest_why + " (reader op " + std::to_string(c.deepest_j) + " of " + std::to_string(HR.size()) + ")"; }
             }
         }
+        if (n_bundles) stat_add(P_BUNDLE, n_bundles);
+        if (bundle_followed) { stat_add(P_BUNDLE_FOLLOWED); if (!res.cls.empty()) res.taint = "bundle-not-last-in-ring"; note("taint=bundle-not-last-in-ring"); }
         // ---- reach probes (from the history; never decide anything)
         {
             long used = 0; (void)used; uint64_t drops = 0;
